@@ -43,7 +43,7 @@ Proof. exact amount_scalar_spec. Qed.
 Theorem C17_encoding_homomorphic : forall (K : Fld) (b a : Z),
   fsub (balance_scalar (K:=K) b) (amount_scalar a) = balance_scalar (b - a) /\
   fadd (balance_scalar (K:=K) b) (amount_scalar a) = balance_scalar (b + a).
-Proof. intros K b a. split; [apply encoding_homomorphic_customer | apply encoding_homomorphic_merchant]. Qed.
+Proof. exact encoding_homomorphic. Qed.
 
 Theorem C17_encoding_injective_below_q : forall x y, 0 <= x < q_bls -> 0 <= y < q_bls -> @of_Z Fq x = @of_Z Fq y -> x = y.
 Proof. exact encoding_injective. Qed.
